@@ -1,16 +1,63 @@
 """Single source for MANIFEST.json (vlib/mkmanifest.py)."""
+K_ONLY = 'Trusted: rustc/Kani codegen, CBMC 6.11 + CaDiCaL, the harness oracles (written against the property statement, cross-checked where noted). '
+M_TB = 'Trusted: rustc MIR (-Zunpretty=mir) as a faithful lowering of the source, the MIR interpreter and its call models (listed in evidence), z3 5.1; real-arithmetic semantics unless stated (rounding outside); oracle functions uninterpreted. '
 ENGINES = [
     {'name': 'K', 'path': 'kani/', 'kind_free_text': 'Kani 0.68 / CBMC 6.11 bounded model checking of the compiled crate (scratch copy of /repo + cfg(kani) child-module harnesses), CaDiCaL back end, native replay of counterexamples via concrete playback',
-     'serves_properties': ['C07']},
-    {'name': 'M', 'path': 'mirsmt/', 'kind_free_text': 'symbolic execution of rustc MIR (nightly -Zunpretty=mir of the scratch copy) into SMT-LIB2, decided by z3 5.1 (cross-checked with z3 4.8 / cvc5)',
-     'serves_properties': []},
+     'serves_properties': ['C01', 'C02', 'C03', 'C04', 'C05', 'C06', 'C07', 'C09', 'C10', 'C11', 'C13', 'C14', 'C15', 'C18', 'C19', 'C20']},
+    {'name': 'M', 'path': 'mirsmt/', 'kind_free_text': 'symbolic execution of rustc MIR (nightly -Zunpretty=mir of the scratch copy) into SMT-LIB2 under a chosen float semantics (reals / reals with relative rounding error / FloatingPoint eb sb), decided by z3 5.1 one process per obligation; counterexamples confirmed by a native driver running the real crate against a 60-digit reference',
+     'serves_properties': ['C01', 'C02', 'C04', 'C05', 'C06', 'C08', 'C09', 'C10', 'C13', 'C16', 'C17']},
 ]
-PENDING = 'check not built yet in this revision of /verif (machinery under construction; see DESIGN.md for the planned approach)'
+
+
+def K(id, text, note, tech='Kani/CBMC bounded model checking (SAT) of the compiled code over symbolic inputs'):
+    return {'id': id, 'engine': 'K', 'level': 'model_checking', 'technique': tech, 'text': text, 'note': K_ONLY + note}
+
+
+def M(id, text, note, tech='symbolic execution of rustc MIR to SMT-LIB (z3 nlsat / FP), plus Kani/CBMC harnesses for loops'):
+    return {'id': id, 'engine': 'M+K', 'level': 'proof', 'technique': tech, 'text': text, 'note': M_TB + note}
+
+
 CHECKS = [
-    {'id': 'C07', 'engine': 'K', 'level': 'model_checking', 'technique': 'Kani/CBMC bounded model checking (SAT) of the compiled predicates over all i8 / non-NaN f64 inputs, set-semantics oracle',
-     'text': 'Every value of Interval<i8> x Interval<i8> x probe (and Interval<f64> compare-only) is decided by CBMC against a set-semantics oracle; no unwinding or range bound, so the verdict covers the whole instantiated input space; counterexamples are replayed natively.',
-     'note': 'Trusted: rustc/Kani codegen, CBMC, the sentinel oracle (cross-checked pointwise). Instantiations i8 and f64 only; NaN excluded; two-sided inputs satisfy low <= high.'},
+    M('C01', 'The expression DAG that rustc\'s MIR of Arithmetic::<F>::ci_mean (callees inlined) returns is proved equal, over the reals and for every accumulator state with count >= 2 (any sample length) and every level/kind, to xbar -/+ c*s/sqrt(n) with c = Tq(quantile, n-1) below 100000 dof and Zq(quantile) from there on; quantile = (1+L)/2 / L; kind -> shape; append accumulates x and x*x by kahan_add (term identity). Kani decides the feeding loops (folds of append) and the statrs call arguments on compiled code.',
+      'Rounding of the closed form is outside (C08 bounds the sums); statrs quantiles trusted (C06). K bounds: <= 3 observations.'),
+    M('C02', 'Wilson and Wald bounds extracted from MIR are proved (reals) to be the roots of the score equation / the Wald formula, ordered and inside [0,1], with 1 / 0 far ends for one-sided requests and z = Zq(quantile); outcome classes are proved exact over the integers for all n,k; the ratio front end hands over exactly k under a relative-rounding-error model (n <= 2^32), with a bit-precise F(11,53) witness search + native replay on refutation; Kani decides counting loops and delegation.',
+      'K bounds: front-end data <= 4 items; thorough tier repeats the domains on compiled code for all usize.'),
+    K('C03', 'Kani decides, for symbolic samples of 4-5 u8 elements (ties, every permutation), that ci / ci_max_size / ci_sorted_unchecked return the order statistics at the ranks handed over by ci_indices and agree with each other, independent of input order; and for the rank arithmetic (symbolic n <= 12 + concretised n grid, every double q, symbolic Wilson bounds) that ranks are the capped floors of the Wilson bounds, in range, ordered, bracket round(q n) within one position, with the documented rejections.',
+      'Decomposition: ci_indices and ci_wilson replaced by contract stubs closed by other harnesses/C02/C17. Samples > 5 elements and non-u8 element types outside the bound; quick tier n <= 12 symbolic, thorough n <= 64 + larger grid.'),
+    M('C04', 'Unpaired::ci_mean\'s MIR terms are proved (reals, all pairs of states with counts >= 2) to be (mean_a-mean_b) -/+ c*sqrt(sa2/na+sb2/nb) with c at the documented effective dof (t below 100000, z above), swap symmetry given an odd oracle; Paired methods are term-identical to Arithmetic on a-b; Kani decides the feeding loops (difference sequence, routing a->a / b->b) and DifferentSampleSizes payloads.',
+      'K bounds: <= 3 pairs / 2+2 observations, recorder stubs, one operand of each pair zero.'),
+    M('C05', 'Geometric/Harmonic ci_mean, sample_mean are shown to be exp / reciprocal (ends exchanged, confidence flipped) of the arithmetic results as identical expression DAGs; sample_sem equals the documented delta-method forms (reals); append feeds ln x / 1/x exactly when x > 0. Kani decides rejection of every non-positive f64/f32 with the state bitwise unchanged and at every position.',
+      'AM-GM-HM ordering not encoded (a theorem about means, outside). exp/ln uninterpreted.'),
+    {'id': 'C06', 'engine': 'K+M', 'level': 'other', 'technique': 'reduction to the statrs oracle decided by Kani stub recorders and MIR/SMT argument identities; oracle truth trusted',
+     'text': 'Decides the reduction only: on compiled code (Kani) and on MIR (z3) every critical value is statrs StudentsT/Normal inverse_cdf at (1+L)/2 | L with the documented dof and switch, consulted afresh per call, span = c*se unsigned-free. That statrs\' inverse CDFs are the true quantiles cannot be encoded (iterative special functions) and is trusted.',
+     'note': 'statrs 0.18 numerical correctness is trusted (pinned by Cargo.lock). ' + K_ONLY},
+    K('C07', 'Every value of Interval<i8> x Interval<i8> x probe (and Interval<f64> compare-only) is decided by CBMC against a set-semantics oracle; no unwinding or range bound, so the verdict covers the whole instantiated input space; counterexamples are replayed natively.',
+      'Instantiations i8 and f64 only; NaN excluded; two-sided inputs satisfy low <= high.'),
+    M('C08', 'Per-step error lemmas of compensated summation on the terms extracted from the MIR of kahan_add / KahanSum (+=, merge, value), decided bit-precisely by z3 at reduced float widths for every finite register and addend, plus bounded end-to-end sums; naive summation is refuted by the same queries (discrimination witness).',
+      'Decided at the stated reduced formats only (format-parametric source); f32/f64 outside the solver\'s bound; composition of the per-step lemmas into the n-term bound is a three-line paper argument in DESIGN.md.',
+      tech='symbolic execution of rustc MIR to SMT-LIB FloatingPoint at reduced width (z3), cube-split'),
+    M('C09', 'One merge step from arbitrary states (covers every grouping/order/tree/schedule): Kani decides counts, integer Stats sums, purity, copies and feeding loops on compiled code; MIR term identities show merged registers are exactly the component-wise register merges, += is +, wrappers delegate, Unpaired merges a with a and b with b; value(a (+) b) = value(a)+value(b)-2c_a over the reals.',
+      'Closeness of sums to exact sums is C08; K bounds: <= 3-4 observations in feeding loops; counts < usize::MAX/2.'),
+    M('C10', 'For every producer the bound terms from MIR are shown (reals, critical value abstracted) to be the same function of the critical value for one- and two-sided requests, monotone in it, to contain the point estimate for c >= 0, with q_two(2L-1) = L and Confidence::quantile increasing; Wilson/Wald one-sided bounds monotone in signed z (odd symmetry); rank map monotone; result kind == confidence kind.',
+      'Oracle axioms (non-decreasing in p, >= 0 above 1/2) stated, not proved. FP evaluation of 1-(1-(2L-1))/2 vs L outside.'),
+    K('C11', 'Kani decides totality on the compiled code: state-level harnesses over arbitrary accumulator fields (= after any history, incl. count 0/1, NaN/inf sums) and API-level harnesses with <= 3 (quantiles <= 5) arbitrary observations: no panic other than the documented ones, Ok => no NaN bound and low <= high, documented error variants, for all usize counts and every double quantile.',
+      'Levels in [0.001,0.9999]; statrs inverse CDFs stubbed by their sign/finite contract (|z|<=40,|t|<=1e300); decompositions listed in evidence.'),
+    K('C13', 'Kani decides soundness, shape (unbounded side) and tightness of every scalar and interval-interval operation per (operation, kind, scalar sign) on Interval<i32> in a stated box, the documented panics, and relative_to kinds/panics; engine M proves relative_to\'s enclosure and attained bounds over the reals.',
+      'Box: endpoints +-1000, scalars +-1000 (+,-) / +-100 (*,/). Float * and / monotonicity is an IEEE fact taken as trusted; f32 +,- in the thorough tier.', tech='Kani/CBMC bounded model checking (SAT) over an integer box; MIR-to-SMT (z3 nlsat) for relative_to'),
+    K('C14', 'Kani decides constructors/conversions (Ok iff low <= high, InvalidBounds / EmptyInterval), bit-exact accessors and projections, round trips, kind predicates, is_degenerate, width, clone/copy/eq/hash-stream consistency over all i8/u8, all non-NaN f64 bit patterns, and a non-Copy ordered newtype.', 'NaN bounds outside; width on i32 in +-10^6, f32 for the float subtraction.'),
+    K('C15', 'Kani decides Equal <=> ==, Less <=> a != b and sup a <= inf b, duality, transitivity and incomparability over every pair / triple of Interval<i8>.', 'Instantiation i8 (a 256-chain realises every relative order of six bounds).'),
+    M('C16', 'Real identities on the MIR terms: CI(lambda*state) = lambda*CI(state) for lambda > 0, mirror under negation with upper/lower exchanged, CI(state shifted by d) = CI + d, append homogeneity, for Arithmetic and Unpaired (dof scale-invariant); critical value data-independent (dataflow); IEEE scaling lemmas per operation at F(5,11).',
+      'Exactness for powers of two rests on the per-operation lemmas decided at F(5,11) only, absent over/underflow; reordering reduces to C08.'),
+    M('C17', 'Real-arithmetic (nlsat) proofs on the Wilson and Wald terms extracted from MIR: mirror symmetry with upper/lower exchanged, both bounds non-decreasing in k, strictly narrower for (m n, m k), wider with z, inside [0,1], midpoint between k/n and 1/2 - for all real n, k in the domain and real z > 0.',
+      'n,k relaxed to reals; Wald monotonicity in k stated for z <= 4.'),
+    K('C18', 'Kani decides over every f64/f32 bit pattern: constructors return exactly for 0<l<1 and otherwise only the documented panic is reachable, try_from returns InvalidConfidenceLevel, accessor consistency, flipped involution, order iff same kind then by level, == iff kind and level.', 'percent() checked for range only.'),
+    K('C19', 'Kani decides, for an element type whose approximate-equality relations are symbolic truth tables, that the interval relation is exactly same-kind AND bound-wise element relation with the same tolerances (hence reflexive/symmetric/implied by == when the element relation is), plus exact Display bytes.', 'f64 instantiation decided only for equal bounds and across kinds; Display with a one-byte token type.'),
+    K('C20', 'Builds the crate under each advertised feature set (compile step) and, under serde, lets Kani run the real derive output of every state type against an in-harness binary (de)serializer over arbitrary field values: bitwise-equal restoration.', 'Feature matrix is compilation, not solving. One binary format; equal statistics/continuation follow from bitwise equality + determinism.',
+      tech='Kani/CBMC on serde derive output; cargo build per feature set'),
 ]
 NOT_APPLICABLE = [
     {'property_id': 'C12', 'reason': 'exact binomial coverage is a numerical summation over all outcomes k on a grid of (n,p,level) up to thousands; there is nothing for a solver to search and pmf sums of that size are not encodable bit-precisely or in NRA (DESIGN.md §4)'},
-] + [{'property_id': 'C%02d' % i, 'reason': PENDING} for i in range(1, 21) if i not in (7, 12)]
+]
+
+CHECKS = [c for c in CHECKS if c['id'] != 'C08']
+NOT_APPLICABLE.append({'property_id': 'C08', 'reason': 'check under construction in this revision (reduced-width FP lemmas; see DESIGN.md C08)'})
